@@ -391,7 +391,13 @@ def _sx_mod(l, r):
     if isinstance(l, str):
         if _sx_tuple_has_sym(r):
             return _printf(l, r)
-        return l % r
+        try:
+            return l % r
+        except TypeError as e:
+            if 'returned non-string' in str(e):
+                # an object of the lifted package rendered itself with symbolic content
+                return _printf(l, r)
+            raise
     if isinstance(l, SymStr):
         if l.is_concrete():
             return _sx_mod(l.concrete(), r)
@@ -442,6 +448,11 @@ def _printf(fmt, args):
             v = args[ai]
             ai += 1
         if not _sym(v):
+            if conv in 'rs' and not spec and not isinstance(v, (str, bytes, int, float, tuple, list, dict, type(None))):
+                # objects of the lifted package may render themselves with symbolic content
+                r = v.__repr__() if conv == 'r' or type(v).__str__ is object.__str__ else v.__str__()
+                out.append(r)
+                continue
             out.append(('%' + spec + conv) % (v,))
             continue
         if conv == 'f' and isinstance(v, SymInt):
@@ -483,6 +494,12 @@ def _sx_fmt(*parts):
             else:
                 raise Unsupported('f-string conversion on symbolic value')
         else:
+            if conv in (114, 115) and not spec and not isinstance(v, (str, bytes, int, float, tuple, list, dict, type(None))):
+                r = v.__repr__() if conv == 114 or type(v).__str__ is object.__str__ else v.__str__()
+                if isinstance(r, SymStr):
+                    anysym = True
+                out.append(r)
+                continue
             if conv == 114:
                 v = repr(v)
             elif conv == 115:
